@@ -2,7 +2,9 @@
    Statements only; proofs are in Proofs/ValidateOverlap.v and Proofs/ValidateRules.v. *)
 From Coq Require Import List NArith ZArith String Bool.
 From GQL Require Import Exec.Syntax Validate.VSyntax Validate.Overlap Validate.OverlapSpec Validate.Rules
-     Exec.Exec Proofs.ValidateOverlap Proofs.ValidateRules Proofs.ValidateMerge Proofs.ValidateMemo Proofs.ValidateInputFields Proofs.ValidateArgs Proofs.ValidateCycles Proofs.ValidateUnused Proofs.ValidateMemoHard Proofs.ValidateL1 Validate.All Proofs.ValidateAll Proofs.ValidateCyclesComplete.
+     Exec.Exec Proofs.ValidateOverlap Proofs.ValidateRules Proofs.ValidateMerge Proofs.ValidateMemo Proofs.ValidateInputFields Proofs.ValidateArgs Proofs.ValidateCycles Proofs.ValidateUnused Proofs.ValidateMemoHard Proofs.ValidateL1 Validate.All Proofs.ValidateAll Proofs.ValidateCyclesComplete
+     Validate.OverlapWf Proofs.ValidateReflect Proofs.ValidateReflectClose Proofs.ValidateFuel Proofs.ValidateDecide
+     Proofs.ValidateWf Proofs.ValidateRank Proofs.ValidateWfDoc Proofs.ValidateClosure Proofs.ValidateRulesDecl Proofs.ValidateLiteral Proofs.ValidateWitness Proofs.ValidateOffending.
 Import ListNotations.
 Open Scope string_scope.
 
@@ -29,12 +31,12 @@ Theorem C02_overlap_decomposition_generic : forall S D base,
 Proof. exact decomposition_iff. Qed.
 Print Assumptions C02_overlap_decomposition_generic.
 
-(* Memo transparency, one direction (partial).  On a document on which every check of the
-   decomposition passes, the executable algorithm reports no conflict -- with the memo
-   tables comparedSet / comparedFieldsAndFragmentSet (L3, memo = true) and without them
-   (memo = false), for every fuel: the memo tables never make the rule reject.
-   Missing: the converse (a conflict found without memo is found with it); it is checked
-   by the differential against L1 only. *)
+(* Memo transparency, one direction (named _partial for that reason; the other direction is
+   C02_overlap_memo_transparent, both together with the reflection C02_overlap_exec_decides).
+   On a document on which every check of the decomposition passes, the executable algorithm
+   reports no conflict -- with the memo tables comparedSet / comparedFieldsAndFragmentSet
+   (L3, memo = true) and without them (memo = false), for every fuel: the memo tables never
+   make the rule reject. *)
 Theorem C02_overlap_memo_transparent_partial : forall S D memo fuel,
   L2_accepts S D -> run_overlap S D memo fuel = [].
 Proof. exact L2_accepts_exec. Qed.
@@ -252,14 +254,6 @@ Theorem C02_rule_sound_no_fragment_cycles_partial : forall W,
 Proof. exact no_fragment_cycles_sound. Qed.
 Print Assumptions C02_rule_sound_no_fragment_cycles_partial.
 
-(* NoUnusedFragments, one direction (partial): a fragment definition that no operation
-   reaches through spreads is reported.  Missing: a reported fragment is unreachable (the
-   closure iteration of the model is complete), checked by the differential only. *)
-Theorem C02_rule_complete_no_unused_fragments_partial : forall W,
-  Violates_no_unused_fragments W -> rule_no_unused_fragments W <> [].
-Proof. exact no_unused_fragments_complete. Qed.
-Print Assumptions C02_rule_complete_no_unused_fragments_partial.
-
 (* NoFragmentCycles, both directions: with unique fragment names the DFS as coded reports an
    error exactly when some fragment reaches itself through spreads. *)
 Theorem C02_rule_iff_no_fragment_cycles : forall W,
@@ -268,26 +262,217 @@ Theorem C02_rule_iff_no_fragment_cycles : forall W,
 Proof. exact no_fragment_cycles_iff. Qed.
 Print Assumptions C02_rule_iff_no_fragment_cycles.
 
-(* NoUnusedFragments, both directions, when the closure iteration of the model did not fall
-   short (closures_stable is an executable test; RecursivelyReferencedFragments itself is a
-   terminating worklist). *)
+(* NoUnusedFragments, both directions: a fragment definition is reported exactly when no
+   operation reaches it through spreads.  The closure iteration of the model of
+   RecursivelyReferencedFragments (|fragments| + 1 rounds) never falls short
+   (C02_closure_reaches_fixpoint: every unstable round was preceded by the first appearance of
+   a defined fragment name). *)
+Theorem C02_closure_reaches_fixpoint : forall W, closures_stable W = true.
+Proof. exact closures_stable_always. Qed.
+Print Assumptions C02_closure_reaches_fixpoint.
+
 Theorem C02_rule_iff_no_unused_fragments : forall W,
-  closures_stable W = true ->
-  (rule_no_unused_fragments W <> [] <-> Violates_no_unused_fragments W).
-Proof. exact no_unused_fragments_iff. Qed.
+  rule_no_unused_fragments W <> [] <-> Violates_no_unused_fragments W.
+Proof. exact no_unused_fragments_iff_all. Qed.
 Print Assumptions C02_rule_iff_no_unused_fragments.
 
+(* ---- relational specifications of the helpers the simple rules share ---- *)
+
+(* RecursiveVariableUsages: the model's usages of an operation are exactly the usages that
+   occur in the operation or in a fragment reachable from it through spreads (inductive
+   Reach; UsedIn is defined in Proofs/ValidateRulesDecl.v). *)
+Theorem C02_recursive_variable_usages : forall S W o u, In u (rec_uses S W o) <-> UsedIn S W o u.
+Proof. exact rec_uses_iff. Qed.
+Print Assumptions C02_recursive_variable_usages.
+
+Theorem C02_rule_iff_no_undefined_variables_decl : forall S W,
+  rule_no_undefined_variables S W <> [] <-> Violates_no_undefined_variables_decl S W.
+Proof. exact no_undefined_variables_decl_iff. Qed.
+Print Assumptions C02_rule_iff_no_undefined_variables_decl.
+
+Theorem C02_rule_iff_no_unused_variables_decl : forall S W,
+  rule_no_unused_variables S W <> [] <-> Violates_no_unused_variables_decl S W.
+Proof. exact no_unused_variables_decl_iff. Qed.
+Print Assumptions C02_rule_iff_no_unused_variables_decl.
+
+(* isTypeSubTypeOf is the inductive subtype relation (equal names; object possible for an
+   abstract type; non-null covariant; non-null below nullable; lists covariant). *)
+Theorem C02_subtype_iff : forall S a b, subtype S a b = true <-> Subtype S a b.
+Proof. exact subtype_iff. Qed.
+Print Assumptions C02_subtype_iff.
+
+(* VariablesInAllowedPosition: a variable is used where its declared type -- made non-null
+   when it has a default value -- is not a subtype of the expected type. *)
+Theorem C02_rule_iff_variables_in_allowed_position_decl : forall S W,
+  rule_variables_in_allowed_position S W <> [] <-> Violates_variables_in_allowed_position_decl S W.
+Proof. exact variables_in_allowed_position_decl_iff. Qed.
+Print Assumptions C02_rule_iff_variables_in_allowed_position_decl.
+
+(* doTypesOverlap: two types overlap iff they are equal or share a possible object type. *)
+Theorem C02_types_overlap_iff : forall S t1 t2, types_overlap S t1 t2 = true <-> Overlaps S t1 t2.
+Proof. exact types_overlap_iff. Qed.
+Print Assumptions C02_types_overlap_iff.
+
+Theorem C02_rule_iff_possible_fragment_spreads_decl : forall S W,
+  rule_possible_fragment_spreads S W <> [] <-> Violates_possible_fragment_spreads_decl S W.
+Proof. exact possible_fragment_spreads_decl_iff. Qed.
+Print Assumptions C02_rule_iff_possible_fragment_spreads_decl.
+
+(* isValidLiteralValue is the inductive relation ValidLit (Proofs/ValidateLiteral.v): variables
+   anywhere; non-null = the inner type; a list literal elementwise, any other literal as a
+   single item; an input object: every provided field defined, the last value given for a
+   field valid for it, every field not given nullable; scalars by their parse function; enum
+   values by name; anything for other named types. *)
+Theorem C02_valid_literal_iff : forall S v t, vlit S v t = true <-> ValidLit S v t.
+Proof. exact vlit_iff. Qed.
+Print Assumptions C02_valid_literal_iff.
+
+Theorem C02_rule_iff_arguments_of_correct_type_decl : forall S W,
+  rule_arguments_of_correct_type S W <> [] <-> Violates_arguments_of_correct_type_decl S W.
+Proof. exact arguments_of_correct_type_decl_iff. Qed.
+Print Assumptions C02_rule_iff_arguments_of_correct_type_decl.
+
+Theorem C02_rule_iff_default_values_of_correct_type_decl : forall S W,
+  rule_default_values_of_correct_type S W <> [] <-> Violates_default_values_of_correct_type_decl S W.
+Proof. exact default_values_of_correct_type_decl_iff. Qed.
+Print Assumptions C02_rule_iff_default_values_of_correct_type_decl.
+
+(* ---- the executable overlap algorithm decides the declarative layers ---- *)
+
+(* Reflection of the unmemoised executable (the fuelled conflict finder as coded, fragments
+   visited through the spreads of the compared sets) into the declarative decomposition L2:
+   for every document whose selection sets are told apart by (parent type, first node id) and
+   whose fields have unique argument names, over a schema that does not redefine __typename /
+   String (meta_ok), with a rank rk (acyclic): if the run completes within its fuel (no
+   out-of-fuel flag) and reports nothing, every check of the A-J decomposition passes on
+   every selection set -- over ALL ordered pairs of fields (the code compares each unordered
+   pair once and never a field with itself) and under the rule's own parent types. *)
+Theorem C02_overlap_unmemo_reflects : forall S D,
+  ids_distinct S D -> args_unique S D -> meta_ok S = true ->
+  forall rk, ranked S D rk ->
+  forall fuel, run_overlap S D false fuel = [] -> run_complete S D false fuel = true -> L2_accepts S D.
+Proof. exact exec_decides_L2. Qed.
+Print Assumptions C02_overlap_unmemo_reflects.
+
+(* Fuel sufficiency: on an acyclic document neither the memoised nor the unmemoised run sets
+   the out-of-fuel flag when given fuel_of D = 3 + 6 * ((|fragments|+1) * (depth+1) + depth)
+   or more (depth = deepest field nesting of an operation / fragment body). *)
+Theorem C02_overlap_fuel_sufficient : forall S D memo fuel,
+  acyclic S D -> (fuel_of D <= fuel)%nat -> run_complete S D memo fuel = true.
+Proof. exact fuel_sufficient. Qed.
+Print Assumptions C02_overlap_fuel_sufficient.
+
+(* The unmemoised executable decides L2. *)
+Theorem C02_overlap_unmemo_decides_L2 : forall S D fuel,
+  acyclic S D -> ids_distinct S D -> args_unique S D -> meta_ok S = true -> (fuel_of D <= fuel)%nat ->
+  (run_overlap S D false fuel = [] <-> L2_accepts S D).
+Proof. exact unmemo_decides_L2. Qed.
+Print Assumptions C02_overlap_unmemo_decides_L2.
+
+(* L3 = L2 = L1: the executable algorithm, with or without the memo tables, reports nothing
+   exactly when every two fields that can land on one response key are compatible, however
+   deeply nested in fragment spreads.  Soundness (a reported conflict => L1 violated) is the
+   <- direction read contrapositively, completeness (L1 violated => a conflict is reported)
+   the -> direction. *)
+Theorem C02_overlap_exec_decides : forall S D memo fuel,
+  acyclic S D -> ids_distinct S D -> args_unique S D -> meta_ok S = true -> (fuel_of D <= fuel)%nat ->
+  (run_overlap S D memo fuel = [] <-> L1_accepts S D).
+Proof. exact exec_decides_L1. Qed.
+Print Assumptions C02_overlap_exec_decides.
+
+Theorem C02_overlap_sound : forall S D memo fuel,
+  acyclic S D -> run_overlap S D memo fuel <> [] -> ~ L1_accepts S D.
+Proof. intros S D memo fuel A H L. apply H. apply L1_accepts_exec; assumption. Qed.
+Print Assumptions C02_overlap_sound.
+
+Theorem C02_overlap_complete : forall S D memo fuel,
+  acyclic S D -> ids_distinct S D -> args_unique S D -> meta_ok S = true -> (fuel_of D <= fuel)%nat ->
+  ~ L1_accepts S D -> run_overlap S D memo fuel <> [].
+Proof.
+  intros S D memo fuel A Hid Ha Hm Hf HN E. apply HN.
+  apply (proj1 (exec_decides_L1 S D memo fuel A Hid Ha Hm Hf)). exact E.
+Qed.
+Print Assumptions C02_overlap_complete.
+
+(* Soundness with the witness and the location (no hypothesis: any schema, any document --
+   cyclic or not --, with or without the memo tables, any fuel): every node the run reports
+   is a field a of a visited selection set s such that some field b, both reachable in the
+   unfolded selection set (EF: through inline fragments and any chain of spreads), has the
+   same response key and conflicts with it -- Cfl: names, arguments or return types disagree
+   (FieldsInSetCanMerge / SameResponseShape on the two fields), or, recursively, two fields of
+   their unfolded sub-selections with one response key conflict; Cfl refutes compat. *)
+Theorem C02_overlap_sound_witness : forall S D memo fuel x, In x (run_overlap S D memo fuel) ->
+  exists s a b, doc_sets S D s /\ EF S D s a /\ EF S D s b /\ fe_key a = fe_key b /\ fe_id a = x /\
+                Cfl S D false a b /\ ~ compat S D (base2 S) false a b.
+Proof. exact overlap_sound_witness. Qed.
+Print Assumptions C02_overlap_sound_witness.
+
+(* The runner's oracle for the location of overlap errors: whenever offending_o answers, its
+   ids are exactly the fields of visited selection sets that are a member of an incompatible
+   pair with one response key (Offending, Proofs/ValidateOffending.v), and every node the
+   model of the rule reports -- memoised or not, any fuel -- is among them. *)
+Theorem C02_offending_oracle : forall S D fuel ids, offending_o S D fuel = Some ids ->
+  forall x, In x ids <-> exists s, In s (all_sets S D) /\ Offending S D s x.
+Proof. exact offending_o_spec. Qed.
+Print Assumptions C02_offending_oracle.
+
+Theorem C02_overlap_reports_offending : forall S D fuel ids, offending_o S D fuel = Some ids ->
+  forall memo fuel' x, In x (run_overlap S D memo fuel') -> In x ids.
+Proof. exact model_reports_offending. Qed.
+Print Assumptions C02_overlap_reports_offending.
+
+(* The Prop-level hypotheses follow from decidable tests (Validate/OverlapWf.v), which the
+   runner evaluates on every case: ids_ok (selection node ids pairwise distinct and non-zero),
+   args_ok (every field node has pairwise distinct argument names), ranked_b (the longest
+   spread chain from a fragment, computed with |fragments|+1 fuel, decreases along every
+   spread).  ranked_b is exact: it holds iff the document has a rank iff no fragment reaches
+   itself through spreads. *)
+Theorem C02_wf_ids : forall S D, ids_ok D = true -> ids_distinct S D.
+Proof. exact ids_ok_distinct. Qed.
+Print Assumptions C02_wf_ids.
+
+Theorem C02_wf_args : forall S D, args_ok D = true -> args_unique S D.
+Proof. exact args_ok_unique. Qed.
+Print Assumptions C02_wf_args.
+
+Theorem C02_wf_acyclic : forall S D,
+  (ranked_b D = true <-> acyclic S D) /\ (acyclic S D <-> no_cycle S D).
+Proof.
+  intros S D. split; [apply ranked_b_acyclic|]. split; [apply acyclic_no_cycle | apply rank_exists].
+Qed.
+Print Assumptions C02_wf_acyclic.
+
+(* With unique fragment names the certified test decides NoFragmentCycles' declarative
+   predicate (the runner's Spec oracle for that rule). *)
+Theorem C02_cycles_oracle : forall W, NoDup (map wf_name (w_frags W)) ->
+  (ranked_b (erase W) = true <-> ~ Violates_no_fragment_cycles W).
+Proof. exact cycles_oracle. Qed.
+Print Assumptions C02_cycles_oracle.
+
+(* The overlap rule's executable decision, under decidable hypotheses only. *)
+Theorem C02_overlap_exec_decides_b : forall S D memo fuel,
+  ranked_b D = true -> ids_ok D = true -> args_ok D = true -> meta_ok S = true -> (fuel_of D <= fuel)%nat ->
+  (run_overlap S D memo fuel = [] <-> L1_accepts S D).
+Proof.
+  intros S D memo fuel Hr Hi Ha Hm Hf.
+  apply exec_decides_L1; [apply (proj1 (ranked_b_acyclic S D)); exact Hr | apply ids_ok_distinct; exact Hi
+                         | apply args_ok_unique; exact Ha | exact Hm | exact Hf].
+Qed.
+Print Assumptions C02_overlap_exec_decides_b.
+
 (* The validator's model accepts a document iff no rule is violated (Violates r is the
-   declarative predicate of rule r; for the overlap rule it is ~ L1_accepts).  Hypotheses =
-   the documented exceptions: the closure test above; unique fragment names (needed by the
-   NoFragmentCycles DFS); for the overlap rule acyclicity and "the memoised algorithm's acceptance implies L1"
-   (proved: L1 => acceptance, and acceptance of L3 => acceptance of the unmemoised algorithm;
-   not proved: the reflection of the unmemoised executable into the Prop-level decomposition). *)
+   declarative predicate of rule r -- the relational _decl form where one exists; for the
+   overlap rule it is ~ L1_accepts).  The hypotheses
+   are decidable and hold for every parsed document over a schema the library accepts (the
+   runner checks them on every case): distinct
+   non-zero selection ids, no redefinition of __typename / String, enough fuel.  Unique
+   fragment names, acyclicity and unique argument names are NOT assumed: a document violating
+   them is rejected by UniqueFragmentNames / NoFragmentCycles / UniqueArgumentNames on both
+   sides of the equivalence. *)
 Theorem C02_accept_iff : forall fuel S W,
-  closures_stable W = true ->
-  NoDup (map wf_name (w_frags W)) ->
-  acyclic S (erase W) ->
-  (run_overlap S (erase W) true fuel = [] -> L1_accepts S (erase W)) ->
+  ids_ok (erase W) = true ->
+  meta_ok S = true ->
+  (fuel_of (erase W) <= fuel)%nat ->
   (validate_model fuel S W = [] <-> forall r, ~ Violates r S W).
 Proof. exact accept_iff. Qed.
 Print Assumptions C02_accept_iff.
@@ -308,6 +493,34 @@ Definition exD : document :=
 Example C02_nonvacuous_model :
   acyclic_b exD = true /\ L1b exS exD 50 = false /\ run_overlap exS exD true 50 = [2%N] /\
   run_overlap exS exD false 50 = [2%N].
+Proof. repeat split; vm_compute; reflexivity. Qed.
+
+(* the hypotheses of C02_overlap_exec_decides_b hold on the example (which is rejected), and on
+   its repaired version (accepted) *)
+Definition exD' : document :=
+  {| d_ops := d_ops exD;
+     d_frags := [{| fr_name := "F"; fr_cond := "Q"; fr_sel := [SSpread 30 "G" []] |};
+                 {| fr_name := "G"; fr_cond := "Q"; fr_sel := [SField 56 (Some "x") "a" [] [] []] |}] |}.
+Example C02_nonvacuous_decides :
+  ranked_b exD = true /\ ids_ok exD = true /\ args_ok exD = true /\ meta_ok exS = true /\
+  Nat.leb (fuel_of exD) 50 = true /\ run_overlap exS exD false 50 = [2%N] /\
+  ranked_b exD' = true /\ ids_ok exD' = true /\ args_ok exD' = true /\ Nat.leb (fuel_of exD') 50 = true /\
+  run_overlap exS exD' true 50 = [] /\ run_overlap exS exD' false 50 = [] /\ L1o exS exD' 50 = Some true.
+Proof. repeat split; vm_compute; reflexivity. Qed.
+
+(* the hypotheses of C02_accept_iff hold on a valid and on an invalid document *)
+Definition exW (second : name) : wdoc :=
+  {| w_ops := [{| wo_id := 0; wo_kind := OpQuery; wo_name := None; wo_vars := []; wo_dirs := []; wo_ssid := 0;
+                  wo_sel := [WField 2 (Some "x") "a" [] [] 0 []; WSpread 7 10 "F" []] |}];
+     w_frags := [{| wf_id := 12; wf_nid := 21; wf_name := "F"; wf_tcid := 26; wf_cond := "Q"; wf_dirs := [];
+                    wf_ssid := 28; wf_sel := [WSpread 30 33 "G" []] |};
+                 {| wf_id := 37; wf_nid := 46; wf_name := "G"; wf_tcid := 51; wf_cond := "Q"; wf_dirs := [];
+                    wf_ssid := 53; wf_sel := [WField 56 (Some "x") second [] [] 0 []] |}] |}.
+Example C02_nonvacuous_accept :
+  ids_ok (erase (exW "a")) = true /\ meta_ok exS = true /\
+  Nat.leb (fuel_of (erase (exW "a"))) 50 = true /\ validate_model 50 exS (exW "a") = [] /\
+  ids_ok (erase (exW "b")) = true /\
+  Nat.leb (fuel_of (erase (exW "b"))) 50 = true /\ validate_model 50 exS (exW "b") = [2%N].
 Proof. repeat split; vm_compute; reflexivity. Qed.
 
 Example C02_nonvacuous_rules :
